@@ -44,6 +44,17 @@ class Marker(Exception):
     pass
 
 
+def _marker(base):
+    return type("Marker" + base.__name__, (base,), {})
+
+
+# the class of the injected exception is part of the fault alphabet: library code that catches a standard class
+# around a user call (KeyError from a table lookup, AttributeError from a missing method, ...) must not catch the user's
+MARKER_CLASSES = [Marker] + [_marker(b) for b in (KeyError, ValueError, TypeError, AttributeError, LookupError,
+                                                  RuntimeError, ArithmeticError, AssertionError, IndexError,
+                                                  NotImplementedError)]
+
+
 class Site:
     """harness-owned user function: counts invocations, fails at one absolute invocation index"""
 
@@ -54,6 +65,7 @@ class Site:
         self.fail_at = None        # absolute invocation number (1-based) or None
         self.alt_at = None         # reference only: return impl()+1000 at that invocation
         self.injected = None
+        self.exc_class = Marker
         self.log = None            # optional per-step invocation log
 
     def __call__(self, *a, **k):
@@ -61,7 +73,7 @@ class Site:
         if self.log is not None:
             self.log.append(self.name)
         if self.fail_at is not None and self.count == self.fail_at:
-            self.injected = Marker("injected fault in %s call %d" % (self.name, self.count))
+            self.injected = self.exc_class("injected fault in %s call %d" % (self.name, self.count))
             raise self.injected
         r = self.impl(*a, **k)
         if self.alt_at is not None and self.count == self.alt_at:
@@ -121,7 +133,13 @@ def bounds(tier):
             "conds": len(COND_LIST),
             "faults_per_run": "1" if tier == "quick" else "1 for all bodies; 2 for bodies with <= 2 items (second fault at "
             "every invocation of 3 resumed steps after a first fault in the first execution of main)",
-            "faulted_step": "1st and 2nd execution of main", "resume_steps": 3, "inputs": 2}
+            "faulted_step": "1st and 2nd execution of main", "resume_steps": 3, "inputs": len(INPUTS),
+            "exception_classes": "%d (marker subclasses of Exception, KeyError, ValueError, TypeError, AttributeError, "
+            "LookupError, RuntimeError, ArithmeticError, AssertionError, IndexError, NotImplementedError): all of them at "
+            "every fault point of bodies with <= 2 items, one class per fault point (rotating) for larger bodies"
+            % len(MARKER_CLASSES),
+            "function_objects": "the resumed stepper keeps the function objects it was constructed with while a second "
+            "stepper with its own function objects is alive; per-function invocation counts must agree"}
 
 
 def expand(shape):
@@ -401,10 +419,17 @@ def check_description(shape, acc=None, second_fault=False):
                 occ = seen_occ[cname]
                 nfaults += 1
                 allowed = allowed_values(phases, step, cname, occ)
+                if len(shape) <= 2:
+                    classes = MARKER_CLASSES
+                else:
+                    classes = [MARKER_CLASSES[nfaults % len(MARKER_CLASSES)]]
                 for be in backends:
-                    r = run_fault(be, phases, inp, steps, si, cname, occ, allowed, acc)
-                    if r is not None and not any(f[0] == r[0] for f in fails):
-                        fails.append(r)
+                    for cls in classes:
+                        r = run_fault(be, phases, inp, steps, si, cname, occ, allowed, acc, cls)
+                        if r is not None and not any(f[0] == r[0] for f in fails):
+                            fails.append(r)
+                        if r is not None:
+                            break
                     if r is None and second_fault and si == 1:
                         r2, n2 = run_second_faults(be, inp, steps, si, cname, occ, acc)
                         nfaults += n2
@@ -417,25 +442,26 @@ def _after_first_fault(be, inp, steps, si, cname, occ):
     sites = new_sites()
     sites["<func>" + cname].fail_at = steps[si]["before"]["<func>" + cname] + occ
     st, _, _ = run_until_fault(be, sites, inp, len(steps))
-    return st
+    for s in sites.values():
+        s.fail_at = None
+    return st, sites
 
 
 def run_second_faults(be, inp, steps, si, cname, occ, acc):
     """deviation bound 2: after the first fault, every invocation of every site during 3 resumed steps fails in turn.
     Checked: exception identity, no visible temporaries, resumption equals a fresh stepper (the allowed-values
     clause needs step boundaries of the reference and is checked for the first fault only)."""
-    st = _after_first_fault(be, inp, steps, si, cname, occ)
-    log_sites = new_sites()
-    _swap_functions(be, st, log_sites)
+    st, log_sites = _after_first_fault(be, inp, steps, si, cname, occ)
+    base = {n_: s.count for n_, s in log_sites.items()}
     observe_resume(be, st, 3)
     n = 0
     for fname, site in sorted(log_sites.items()):
-        for k in range(1, site.count + 1):
+        for k in range(1, site.count - base[fname] + 1):
             n += 1
-            st = _after_first_fault(be, inp, steps, si, cname, occ)
-            sites2 = new_sites()
-            sites2[fname].fail_at = k
-            _swap_functions(be, st, sites2)
+            st, sites2 = _after_first_fault(be, inp, steps, si, cname, occ)
+            sites2[fname].fail_at = base[fname] + k
+            sites2[fname].injected = None
+            sites2[fname].exc_class = MARKER_CLASSES[n % len(MARKER_CLASSES)]
             exc = None
             try:
                 cnt = 0
@@ -468,7 +494,7 @@ def run_second_faults(be, inp, steps, si, cname, occ, acc):
                     if kk.startswith("global_"):
                         del fresh.__dict__[kk]
             be.clone_state_into(st, fresh)
-            _swap_functions(be, st, new_sites())
+            sites2[fname].fail_at = None
             o1 = observe_resume(be, st, 3)
             o2 = observe_resume(be, fresh, 3)
             if o1 != o2:
@@ -477,13 +503,14 @@ def run_second_faults(be, inp, steps, si, cname, occ, acc):
     return None, n
 
 
-def run_fault(be, phases, inp, steps, si, cname, occ, allowed, acc):
+def run_fault(be, phases, inp, steps, si, cname, occ, allowed, acc, cls=Marker):
     step = steps[si]
     sites = new_sites()
     sites["<func>" + cname].fail_at = step["before"]["<func>" + cname] + occ
+    sites["<func>" + cname].exc_class = cls
     st, stores, exc = run_until_fault(be, sites, inp, len(steps))
-    where = "backend=%s input y=%s fault=%s#%d in step %d (%s)" % (
-        be.name, inp["state"]["y"], cname, occ, si + 1, step["phase"])
+    where = "backend=%s input y=%s fault=%s#%d (a %s) in step %d (%s)" % (
+        be.name, inp["state"]["y"], cname, occ, cls.__bases__[0].__name__, si + 1, step["phase"])
     if acc is not None:
         acc.evaluations += 1
     inj = sites["<func>" + cname].injected
@@ -528,7 +555,6 @@ def run_fault(be, phases, inp, steps, si, cname, occ, allowed, acc):
         acc.outcome(json.dumps(post, sort_keys=True))
     # resumption vs fresh stepper (observations are per step, so m=3 contains m=1 and m=2 as prefixes)
     m = 3
-    sites_a = new_sites()
     sites_b = new_sites()
     fresh = be.new(sites_b)
     if isinstance(be, GenBackend):
@@ -537,14 +563,23 @@ def run_fault(be, phases, inp, steps, si, cname, occ, allowed, acc):
             if k.startswith("global_"):
                 del fresh.__dict__[k]
     be.clone_state_into(st, fresh)
-    # continue on the ORIGINAL object (that is the claim); swap in fresh fault-free functions
-    _swap_functions(be, st, sites_a)
+    # continue on the ORIGINAL object with the functions it was constructed with (that is the claim); the fresh
+    # stepper, alive at the same time, has its own function objects
+    for s in sites.values():
+        s.fail_at = None
+    base = {n: s.count for n, s in sites.items()}
     o1 = observe_resume(be, st, m)
+    own = {n: s.count - base[n] for n, s in sites.items() if s.count - base[n]}
     o2 = observe_resume(be, fresh, m)
+    other = {n: s.count for n, s in sites_b.items() if s.count}
     if o1 != o2:
         return ("resume-differs(%s)" % be.name,
                 "%s: continuing for %d step(s) gives %s, a fresh stepper in the same state and phase gives %s" % (
                     where, m, json.dumps(o1)[:400], json.dumps(o2)[:400]))
+    if own != other:
+        return ("calls-another-steppers-functions(%s)" % be.name,
+                "%s: while resuming, the stepper invoked the functions it was constructed with %s times; a second "
+                "stepper constructed with its own function objects invoked those %s times" % (where, own, other))
     return None
 
 
